@@ -8,17 +8,18 @@ SRC=$1; ID=$2; PROP=$3; PKG=${4:-pkg/yang}
 D=/tmp/gy-ingest
 /verif/tools/scratch.sh $D >/dev/null || exit 3
 fail() { echo "REJECT $ID: $1"; git -C $D checkout -q -- . ; git -C $D clean -fdq; exit 1; }
-TESTNAME=$(grep -oE "^func (Test[A-Za-z0-9_]+)" $SRC/demo_test.go | head -1 | awk '{print $2}')
+TESTNAME=$(grep -oE "^func (Test[A-Za-z0-9_]+)" $SRC/demo_test.go | awk '{print $2}' | grep -v "Child$\|Helper$" | head -1)
+ALLTESTS=$(grep -oE "^func (Test[A-Za-z0-9_]+)" $SRC/demo_test.go | awk '{print $2}' | paste -sd'|')
 [ -n "$TESTNAME" ] || fail "no test function in demo_test.go"
 # without patch: demo passes
 cp $SRC/demo_test.go $D/$PKG/zz_demo_test.go
-(cd $D/$PKG && timeout 300 go test -vet=off -count=1 -run "^$TESTNAME\$" . > /tmp/ingest.nopatch.log 2>&1) || fail "demo does not pass WITHOUT the patch: $(tail -5 /tmp/ingest.nopatch.log | tr '\n' ' ' | cut -c1-300)"
+(cd $D/$PKG && timeout 300 go test -vet=off -count=1 -run "^($ALLTESTS)\$" . > /tmp/ingest.nopatch.log 2>&1) || fail "demo does not pass WITHOUT the patch: $(tail -5 /tmp/ingest.nopatch.log | tr '\n' ' ' | cut -c1-300)"
 rm $D/$PKG/zz_demo_test.go
 git -C $D apply $SRC/patch.diff || fail "patch does not apply to current HEAD"
 (cd $D && go build ./... ) || fail "does not build"
 /verif/tools/baseline.sh $D > /tmp/ingest.suite.log 2>&1 || fail "suite does not pass with patch: $(tail -3 /tmp/ingest.suite.log | tr '\n' ' ')"
 cp $SRC/demo_test.go $D/$PKG/zz_demo_test.go
-if (cd $D/$PKG && timeout 300 go test -vet=off -count=1 -run "^$TESTNAME\$" . > /tmp/ingest.patch.log 2>&1); then fail "demo PASSES with the patch"; fi
+if (cd $D/$PKG && timeout 300 go test -vet=off -count=1 -run "^($ALLTESTS)\$" . > /tmp/ingest.patch.log 2>&1); then fail "demo PASSES with the patch"; fi
 git -C $D checkout -q -- . ; git -C $D clean -fdq
 mkdir -p /verif/seeded/$ID
 cp $SRC/patch.diff $SRC/demo_test.go /verif/seeded/$ID/
